@@ -114,7 +114,13 @@ RestartKeepsHeadT == (kind = "op" /\ lastop.op = "restart") => O.head = Oprev.he
 CanonIsAncestryT == AtRest => CanonIsAncestry(T, O)
 NothingAboveHeadT == AtRest => NothingAboveHead(T, O)
 RetrievableT == AtRest => Retrievable(T, O)
-LookupT == AtRest => LookupIffCanonical(T, O, alltx)
+\* the canonical blocks that can contain transactions: the gap-free run of canonical numbers whose bodies are present.  Normally its top
+\* is the block head; after a rewind on a pruning node the block head may fall further back (to a block whose state is on disk) while
+\* the bodies up to the header head stay canonical and their transactions stay resolvable
+BodyCanonTop == LET ns == {n \in Heights(O) : \A m \in 0..n : O.canonB[m] # NoBlock}
+                    top == CHOOSE n \in ns : \A k \in ns : k <= n
+                IN O.canonB[top]
+LookupT == AtRest => LookupIffCanonical(T, [O EXCEPT !.head = BodyCanonTop], alltx)
 HeadsKnownT == AtRest => O.head \in DOMAIN T.num /\ O.hhead \in DOMAIN T.num
 
 \* header-first import: a batch containing a header that breaks a consensus rule fails, and that header is not stored - whatever part of
